@@ -41,7 +41,7 @@ def default_cfg(cls, N, rng, cplx, tone=False):
 ROUTES = ['fresh', 'data_assigned', 'data_inplace', 'data_refilled', 'sampling_assigned', 'nfft_assigned', 'scale_assigned',
           # histories through a NON-default representation (sides), staleness and the scale_by_freq toggle; all end in the default layout
           'sides_first', 'sides_then_stale', 'sides_same_after_stale', 'stale_then_scale_toggle', 'datatype_flip', 'sides_call_call',
-          'data_other_length', 'stale_then_reassign_all']
+          'data_other_length', 'stale_then_reassign_all', 'sides_roundtrip', 'sides_chain']
 
 
 def pick_route(rng, p_fresh=0.5):
@@ -142,6 +142,19 @@ def via(make, x, NFFT, sampling, scale_by_freq, route='fresh', prev=None):
                     setattr(p, attr, v)
                 except Exception:
                     pass
+    elif route == 'sides_roundtrip':
+        # an up-to-date estimate converted to a non-default representation, read there, and converted back
+        p = make(x, NFFT, sampling, scale_by_freq); _ = p.psd
+        p.sides = _alt_sides(x, 1); _ = p.psd
+        p.sides = 'default'
+    elif route == 'sides_chain':
+        # ... through every other representation in turn (real: onesided -> centerdc -> twosided -> onesided; complex: via get_converted_psd too)
+        p = make(x, NFFT, sampling, scale_by_freq); _ = p.psd
+        p.sides = 'centerdc'
+        _ = p.get_converted_psd('twosided')
+        if not np.iscomplexobj(x):
+            p.sides = 'twosided'
+        p.sides = 'default'
     elif route == 'sides_call_call':
         # explicit computations while a non-default representation is selected
         p = make(other, NFFT, sampling, scale_by_freq); p()
